@@ -251,10 +251,12 @@ seq_t dtw_distance(seq_t *s1, idx_t l1,
                 #ifdef DTWDEBUG
                 printf("dtw[%zu] = %f > %f\n", curidx, dtw[curidx], max_dist);
                 #endif
-                if (!smaller_found) {
+                // A psi-relaxed path can still start in a later row (first column)
+                // or further in the first row
+                if (!smaller_found && i >= settings->psi_1b) {
                     sc = j + 1;
                 }
-                if (j >= ec) {
+                if (j >= ec && (i > 0 || j >= settings->psi_2b)) {
                     #ifdef DTWDEBUG
                     printf("Break because of pruning with j=%zu, ec=%zu (saved %zu computations)\n", j, ec, minj-j);
                     #endif
@@ -494,10 +496,12 @@ seq_t dtw_distance_ndim(seq_t *s1, idx_t l1,
                 #ifdef DTWDEBUG
                 printf("dtw[%zu] = %f > %f\n", curidx, dtw[curidx], max_dist);
                 #endif
-                if (!smaller_found) {
+                // A psi-relaxed path can still start in a later row (first column)
+                // or further in the first row
+                if (!smaller_found && i >= settings->psi_1b) {
                     sc = j + 1;
                 }
-                if (j >= ec) {
+                if (j >= ec && (i > 0 || j >= settings->psi_2b)) {
                     #ifdef DTWDEBUG
                     printf("Break because of pruning with j=%zu, ec=%zu (saved %zu computations)\n", j, ec, minj-j);
                     #endif
@@ -720,10 +724,12 @@ seq_t dtw_distance_euclidean(seq_t *s1, idx_t l1,
                 #ifdef DTWDEBUG
                 printf("dtw[%zu] = %f > %f\n", curidx, dtw[curidx], max_dist);
                 #endif
-                if (!smaller_found) {
+                // A psi-relaxed path can still start in a later row (first column)
+                // or further in the first row
+                if (!smaller_found && i >= settings->psi_1b) {
                     sc = j + 1;
                 }
-                if (j >= ec) {
+                if (j >= ec && (i > 0 || j >= settings->psi_2b)) {
                     #ifdef DTWDEBUG
                     printf("Break because of pruning with j=%zu, ec=%zu (saved %zu computations)\n", j, ec, minj-j);
                     #endif
@@ -955,10 +961,12 @@ seq_t dtw_distance_ndim_euclidean(seq_t *s1, idx_t l1,
                 #ifdef DTWDEBUG
                 printf("dtw[%zu] = %f > %f\n", curidx, dtw[curidx], max_dist);
                 #endif
-                if (!smaller_found) {
+                // A psi-relaxed path can still start in a later row (first column)
+                // or further in the first row
+                if (!smaller_found && i >= settings->psi_1b) {
                     sc = j + 1;
                 }
-                if (j >= ec) {
+                if (j >= ec && (i > 0 || j >= settings->psi_2b)) {
                     #ifdef DTWDEBUG
                     printf("Break because of pruning with j=%zu, ec=%zu (saved %zu computations)\n", j, ec, minj-j);
                     #endif
@@ -1140,9 +1148,11 @@ seq_t dtw_warping_paths_ndim(seq_t *wps,
                 smaller_found = true;
                 ec_next = ci + 1;
             } else {
-                if (!smaller_found)
+                // A psi-relaxed path can still start in a later row (first column)
+                // or further in the first row
+                if (!smaller_found && ri >= settings->psi_1b)
                     sc = ci + 1;
-                if (ci >= ec)
+                if (ci >= ec && (ri > 0 || ci >= settings->psi_2b))
                     break;
             }
             wpsi++;
@@ -1190,9 +1200,11 @@ seq_t dtw_warping_paths_ndim(seq_t *wps,
                 smaller_found = true;
                 ec_next = ci + 1;
             } else {
-                if (!smaller_found)
+                // A psi-relaxed path can still start in a later row (first column)
+                // or further in the first row
+                if (!smaller_found && ri >= settings->psi_1b)
                     sc = ci + 1;
-                if (ci >= ec)
+                if (ci >= ec && (ri > 0 || ci >= settings->psi_2b))
                     break;
             }
             wpsi++;
@@ -1240,9 +1252,11 @@ seq_t dtw_warping_paths_ndim(seq_t *wps,
                 smaller_found = true;
                 ec_next = ci + 1;
             } else {
-                if (!smaller_found)
+                // A psi-relaxed path can still start in a later row (first column)
+                // or further in the first row
+                if (!smaller_found && ri >= settings->psi_1b)
                     sc = ci + 1;
-                if (ci >= ec)
+                if (ci >= ec && (ri > 0 || ci >= settings->psi_2b))
                     break;
             }
             wpsi++;
@@ -1300,9 +1314,11 @@ seq_t dtw_warping_paths_ndim(seq_t *wps,
                 smaller_found = true;
                 ec_next = ci + 1;
             } else {
-                if (!smaller_found)
+                // A psi-relaxed path can still start in a later row (first column)
+                // or further in the first row
+                if (!smaller_found && ri >= settings->psi_1b)
                     sc = ci + 1;
-                if (ci >= ec)
+                if (ci >= ec && (ri > 0 || ci >= settings->psi_2b))
                     break;
             }
             wpsi++;
@@ -1519,9 +1535,11 @@ seq_t dtw_warping_paths_ndim_euclidean(seq_t *wps,
                 smaller_found = true;
                 ec_next = ci + 1;
             } else {
-                if (!smaller_found)
+                // A psi-relaxed path can still start in a later row (first column)
+                // or further in the first row
+                if (!smaller_found && ri >= settings->psi_1b)
                     sc = ci + 1;
-                if (ci >= ec)
+                if (ci >= ec && (ri > 0 || ci >= settings->psi_2b))
                     break;
             }
             wpsi++;
@@ -1570,9 +1588,11 @@ seq_t dtw_warping_paths_ndim_euclidean(seq_t *wps,
                 smaller_found = true;
                 ec_next = ci + 1;
             } else {
-                if (!smaller_found)
+                // A psi-relaxed path can still start in a later row (first column)
+                // or further in the first row
+                if (!smaller_found && ri >= settings->psi_1b)
                     sc = ci + 1;
-                if (ci >= ec)
+                if (ci >= ec && (ri > 0 || ci >= settings->psi_2b))
                     break;
             }
             wpsi++;
@@ -1621,9 +1641,11 @@ seq_t dtw_warping_paths_ndim_euclidean(seq_t *wps,
                 smaller_found = true;
                 ec_next = ci + 1;
             } else {
-                if (!smaller_found)
+                // A psi-relaxed path can still start in a later row (first column)
+                // or further in the first row
+                if (!smaller_found && ri >= settings->psi_1b)
                     sc = ci + 1;
-                if (ci >= ec)
+                if (ci >= ec && (ri > 0 || ci >= settings->psi_2b))
                     break;
             }
             wpsi++;
@@ -1682,9 +1704,11 @@ seq_t dtw_warping_paths_ndim_euclidean(seq_t *wps,
                 smaller_found = true;
                 ec_next = ci + 1;
             } else {
-                if (!smaller_found)
+                // A psi-relaxed path can still start in a later row (first column)
+                // or further in the first row
+                if (!smaller_found && ri >= settings->psi_1b)
                     sc = ci + 1;
-                if (ci >= ec)
+                if (ci >= ec && (ri > 0 || ci >= settings->psi_2b))
                     break;
             }
             wpsi++;
